@@ -219,6 +219,7 @@ package jsonapi
 //@ ensures shape: srShape(sr)
 //@ ensures kept: forall k string :: k != rel.FromName && k in old(mapdom(sr.data)) && srIsField(sr, k) ==> k in sr.data && sr.data[k] == old(mapval(sr.data))[k]
 //@ ensures id: sr.id == old(sr.id)
+//@ ensures new-attrs-empty: old(sr.Type != nil && sr.Type.Attrs == nil) ==> (forall k string :: !(k in sr.Type.Attrs))
 //@ loop 0 invariant not-yet: forall j int :: 0 <= j && j <= $idx ==> $range[j] != rel.FromName
 
 //@ func SoftResource.RemoveField
